@@ -2,7 +2,8 @@
 Hub lemmas, part 2: the structural invariant `Inv` of the hub model and its
 preservation by every operation (for all op sequences, see `Props/C04`, `C07`).
 
-`InvX orph h` is `Inv` with one relaxation used while an internal client is
+`InvG R orph h` is the general form: `R` relaxes the `room_mem` clause (used while a room is being
+deleted), and `InvX orph h` (= `InvG (fun _ _ _ => False) orph h`) is `Inv` with one relaxation used while an internal client is
 being closed: the virtual sessions in `orph` may (temporarily) have a parent
 that is already gone.  `Inv h = InvX [] h`.
 -/
@@ -10,13 +11,13 @@ import SigModel.Lemmas.HubFields
 
 namespace SigModel.Hub
 
-structure InvX (orph : List Nat) (h : Hub) : Prop where
+structure InvG (R : Nat → Sess → String → Prop) (orph : List Nat) (h : Hub) : Prop where
   fresh : ∀ s, h.nextSid ≤ s → h.sess s = none
   -- rooms and the sessions' own record of their room agree (C04)
   mem_room : ∀ b r rm s, h.rooms b r = some rm → s ∈ rm.members →
     ∃ x, h.sess s = some x ∧ x.backend = b ∧ x.room = some r
   room_mem : ∀ s x r, h.sess s = some x → x.room = some r →
-    ∃ rm, h.rooms x.backend r = some rm ∧ s ∈ rm.members
+    (∃ rm, h.rooms x.backend r = some rm ∧ s ∈ rm.members) ∨ R s x r
   nonempty : ∀ b r rm, h.rooms b r = some rm → rm.members ≠ []
   nodup : ∀ b r rm, h.rooms b r = some rm → rm.members.Nodup
   -- bus listeners are exactly the sessions that should listen (C05, C07)
@@ -50,7 +51,16 @@ structure InvX (orph : List Nat) (h : Hub) : Prop where
   -- the relaxation: orphans are virtual sessions
   orph_virt : ∀ v, v ∈ orph → ∀ y, h.sess v = some y → y.kind = .virtual
 
+/-- The invariant proper: no relaxation of `room_mem`. -/
+notation "InvX" => InvG (fun _ _ _ => False)
+
 abbrev Inv (h : Hub) : Prop := InvX [] h
+
+theorem InvG.room_mem' {orph : List Nat} {h : Hub} (hi : InvX orph h) (s : Nat) (x : Sess) (r : String)
+    (hx : h.sess s = some x) (hr : x.room = some r) : ∃ rm, h.rooms x.backend r = some rm ∧ s ∈ rm.members := by
+  rcases hi.room_mem s x r hx hr with h1 | h1
+  · exact h1
+  · exact h1.elim
 
 /-! ### transport along `CoreEq` -/
 
@@ -68,7 +78,8 @@ theorem CoreEq.sess_fields {h h' : Hub} (e : CoreEq h h') (s : Nat) :
     exact Or.inr ⟨x, x', rfl, hx', f.1, f.2.1, f.2.2.1, f.2.2.2.1, f.2.2.2.2.1, f.2.2.2.2.2.1, f.2.2.2.2.2.2.1,
       f.2.2.2.2.2.2.2.1, f.2.2.2.2.2.2.2.2.1⟩
 
-theorem InvX.congr {orph : List Nat} {h h' : Hub} (e : CoreEq h h') (hi : InvX orph h) : InvX orph h' := by
+theorem InvG.congr {R : Nat → Sess → String → Prop} {orph : List Nat} {h h' : Hub} (e : CoreEq h h') (hi : InvG R orph h)
+    (hR : ∀ s x x' r, x'.backend = x.backend → R s x r → R s x' r := by intros; assumption) : InvG R orph h' := by
   have es := e.sess_fields
   obtain ⟨_, e1, e2, e3, e4, e5, e6, e7, e8, e9, e10, e11, e12, e13, e14, e15, e16⟩ := e
   constructor
@@ -77,7 +88,7 @@ theorem InvX.congr {orph : List Nat} {h h' : Hub} (e : CoreEq h h') (hi : InvX o
   · intro s x r h1 h2; have := es s
     rcases this with ⟨_, h0⟩ | ⟨y, y', hy, hy', f⟩
     · simp [h0] at h1
-    · have := hi.room_mem s y r hy; grind
+    · have := hi.room_mem s y r hy; have := hR s y x r; grind
   · intro b r rm h1; have := hi.nonempty b r rm; grind
   · intro b r rm h1; have := hi.nodup b r rm; grind
   · intro b r s; have := hi.roomL_iff b r s; have := es s; grind
